@@ -2,6 +2,7 @@ package sim
 
 import (
 	"fmt"
+	"strings"
 
 	"gosim/hb"
 	"gosim/rng"
@@ -64,6 +65,9 @@ func init() {
 					}
 				}
 			}
+			if rng.New(rng.Derive(seed, 2021)).Chance(0.2) {
+				p.Layout.HostCase = true
+			}
 			// a second table that is dropped while the connections its regions share
 			// with the first table's regions are healthy: the regions that are gone
 			// are forgotten, the connections are not
@@ -106,6 +110,11 @@ func init() {
 			if err := w.CacheInvariant(); err != nil {
 				vs = append(vs, w.viol("C20", "snapshot", "%v", err))
 			}
+			if w.Env.StopErr == nil && w.AllDone() {
+				if err := w.CacheSettled(); err != nil {
+					vs = append(vs, w.viol("C08", "cache-changed-behind", "%v (discovering a region that is already cached, or that overlaps a newer one, must leave the cache as it is)", err))
+				}
+			}
 			nf := len(w.Plan.ConnFaults)
 			for _, f := range w.Plan.Faults {
 				if f.Act != "dialdelay" { // a slow dial is not a failure
@@ -115,7 +124,7 @@ func init() {
 			if nf == 0 {
 				seen := map[string]int{}
 				for _, d := range w.Env.Dials {
-					seen[d.Addr]++
+					seen[strings.ToLower(d.Addr)]++
 				}
 				for a, n := range seen {
 					if n > 1 {
